@@ -41,7 +41,7 @@ def cases(tier, seed):
 
 def leaf_array(rng, mode, R):
     dt = DT[mode]
-    kind = R.choice(["normal", "negative", "single", "nanrows", "allnan", "wide", "tiny"])
+    kind = R.choice(["normal", "negative", "single", "nanrows", "allnan", "wide", "tiny", "clipped0", "nonpositive0", "zeros"])
     if np.dtype(dt).kind == "i":
         a = rng.integers(1, 20000, (256, 256)).astype(dt)
         if kind == "single":
@@ -59,6 +59,13 @@ def leaf_array(rng, mode, R):
         a[rng.integers(0, 256, 100)] = np.nan
     elif kind == "allnan":
         a[:] = np.nan
+    elif kind == "clipped0":
+        a = np.maximum(a, 0).astype(dt)  # minimum exactly 0.0
+    elif kind == "nonpositive0":
+        a = np.minimum(a, 0).astype(dt)  # maximum exactly 0.0
+    elif kind == "zeros":
+        a[:] = 0.0
+        a[rng.integers(0, 256, 30)] = np.nan
     elif kind == "wide":
         a = (a * 1e6 + 3e7).astype(dt)
     elif kind == "tiny":
